@@ -18,18 +18,22 @@ MODEL = [("A", "ALA", ["N", "CA", "C", "O", "CB", "HB1"]), ("A", "GLY", ["N", "C
          ("A", "LYS", ["N", "CA", "C", "O", "CB", "CG"]), ("A", "HOH", ["O", "H1", "H2"]), ("A", "VAL", ["N", "CA", "C", "O", "CB", "CG1"]),
          ("B", "ALA", ["N", "CA", "C", "O", "CB"]), ("B", "GLY", ["N", "CA", "C", "O", "HA2"]), ("B", "HOH", ["O", "H1", "H2"]),
          ("B", "THR", ["N", "CA", "C", "O", "CB", "OG1"]), ("B", "PHE", ["N", "CA", "C", "O", "CB"])]
+MODEL_U = [("A", "ALA", ["N", "CA", "C", "O", "CB"])] * 4 + [("B", "ALA", ["N", "CA", "C", "O", "CB"])] * 2     # every residue the same size
+MODELS = {"model": MODEL, "uniform": MODEL_U}
+GIVENS = {"model": None, "uniform": [(1, 2), (1, 3), (2, 4), (3, 5), (4, 6), (1, 6)]}
 MASS = {"C": 1201, "N": 1401, "O": 1600, "H": 101}
 WEIGHT = {"C": 3, "N": 4, "O": 5, "H": 1}   # small integer weights for the weighted Rg (TLC integers are 32 bit)
+MIXED = [(1, 3), (1, 5), (2, 4), (5, 9), (3, 7)]                 # 1-based; residues 5 and 9 are waters
 GIVEN = [(1, 2), (1, 3), (2, 4), (3, 7), (6, 8), (4, 11), (2, 8), (10, 11)]
 CELLS = [[[24, 0, 0], [0, 26, 0], [0, 0, 28]], [[24, 0, 0], [-8, 24, 0], [-6, -7, 22]]]
 
 
-def model_topology():
+def model_topology(which="model"):
     import mdtraj as md
     from mdtraj.core import element as E
     top = md.Topology()
     chains = {}
-    for ch, rn, names in MODEL:
+    for ch, rn, names in MODELS[which]:
         if ch not in chains:
             chains[ch] = top.add_chain()
         r = top.add_residue(rn, chains[ch])
@@ -39,9 +43,9 @@ def model_topology():
     return top
 
 
-def table():
+def table(which="model"):
     """the atom / residue table handed to the specification; checked against the real topology's attributes"""
-    top = model_topology()
+    top = model_topology(which)
     atoms = []
     for a in top.atoms:
         atoms.append(dict(res=a.residue.index + 1, name=a.name, h=int(a.element.symbol == "H"), side=int(bool(a.is_sidechain)), m=MASS[a.element.symbol], w=WEIGHT[a.element.symbol]))
@@ -53,12 +57,12 @@ def table():
         if abs(a.element.mass * 100 - row["m"]) > 0.6:
             raise RuntimeError("model topology: mass table off for %s" % a)
     bonds = sorted([min(a.index, b.index) + 1, max(a.index, b.index) + 1] for a, b in top.bonds)
-    if len(bonds) < 30:
+    if len(bonds) < 20:
         raise RuntimeError("model topology: standard bonds were not created")
     return dict(atoms=atoms, residues=residues, bonds=bonds)
 
 
-def gen_cases(seed, n, tab):
+def gen_cases(seed, n, tab, which="model", first_id=0):
     rs = np.random.RandomState(seed)
     na = len(tab["atoms"])
     nres = len(tab["residues"])
@@ -87,14 +91,15 @@ def gen_cases(seed, n, tab):
             if i % 3 == 2:
                 rs.shuffle(sel)
         q = rs.randint(-2, 3, size=na); q[-1] -= q.sum()
-        out.append(dict(id=i, sel=[int(x) for x in sel], charges=[int(x) for x in q], pos=pos.tolist(), cell=cell, periodic=periodic, pairs=[list(p) for p in GIVEN], rdfpairs=prs))
+        giv = GIVENS[which] or GIVEN
+        out.append(dict(id=first_id + i, which=which, mixed=[list(p) for p in (MIXED if which == "model" else giv)], sel=[int(x) for x in sel], charges=[int(x) for x in q], pos=pos.tolist(), cell=cell, periodic=periodic, pairs=[list(p) for p in giv], rdfpairs=prs))
     return out
 
 
 def _check(task):
     import mdtraj as md
     case, exp = task
-    top = model_topology()
+    top = model_topology(case.get("which", "model"))
     P = np.array(case["pos"], dtype=float)
     t = md.Trajectory((P * G).astype(np.float32)[None], top)
     t.unitcell_vectors = (np.array(case["cell"]) * G).astype(np.float32)[None]
@@ -124,7 +129,7 @@ def _check(task):
                         probs.append("squareform places a contact distance in the wrong cell"); break
     # ---- a residue pair for which the scheme designates NO atom pair (water has no side chain; HOH has no CA): the call may refuse;
     #      if it answers, that column must not be a finite positive distance and every other column must still be its own minimum ----
-    mixed = [(1, 3), (1, 5), (2, 4), (5, 9), (3, 7)]                 # 1-based; residues 5 and 9 are waters
+    mixed = [tuple(p) for p in case["mixed"]]
     for si, scheme in enumerate(SCHEMES):
         if scheme in ("closest", "closest-heavy"):
             continue
@@ -143,6 +148,28 @@ def _check(task):
                     probs.append("compute_contacts(%s): residue pair %d-%d has no designated atom pair, yet a distance %.4f is reported" % (scheme, r, s_, dd)); break
             elif abs((dd / G) ** 2 - d2) > tol2(d2):
                 probs.append("compute_contacts(%s) with an empty pair in the list: residues %d-%d report %.4f, their minimum is %.4f" % (scheme, r, s_, dd, np.sqrt(d2) * G)); break
+    # ---- documented soft minimum beta / log sum_i exp(beta / d_i) over ALL designated atom pairs of a residue pair ----
+    beta = 20.0
+    overflow = []
+    for si, scheme in enumerate(SCHEMES):
+        if scheme == "ca":
+            continue
+        rows = exp["allsm"][si]
+        if any(len(row) == 0 for row in rows):
+            continue
+        try:
+            d, rp = md.compute_contacts(t, np.array(case["pairs"]) - 1, scheme=scheme, periodic=per, soft_min=True, soft_min_beta=beta)
+        except Exception as e:  # noqa
+            probs.append("compute_contacts(%s, soft_min=True) raised %s" % (scheme, type(e).__name__)); continue
+        for col, row in enumerate(rows):
+            di = np.sqrt(np.array(row, dtype=np.float64)) * G
+            want = beta / np.log(np.exp(beta / di - (beta / di).max()).sum()) if False else beta / (np.log(np.exp(beta / di - (beta / di).max()).sum()) + (beta / di).max())
+            if d[0, col] == 0.0 and di.min() < beta / 88.7:
+                overflow.append("compute_contacts(%s, soft_min=True): residue pair %s reports 0, its closest designated pair is %.4f nm apart (float32 overflow of exp(beta/d))" % (scheme, case["pairs"][col], di.min()))
+                continue
+            if abs(d[0, col] - want) > 2e-4 * (1 + want):
+                probs.append("compute_contacts(%s, soft_min=True): residue pair %s reports %.5f, the documented soft minimum over its %d atom pairs is %.5f" % (scheme, case["pairs"][col], d[0, col], len(row), want))
+                break
     # ---- centres, radius of gyration, gyration tensor and shape descriptors ----
     com = md.compute_center_of_mass(t)[0]
     if np.abs(com - np.array(exp["com"]) / exp["mass"] * G).max() > 3e-4:
@@ -218,24 +245,32 @@ def _check(task):
     dens = md.density(t, masses=w / 100.0)[0]
     if abs(dens - exp["mass"] / 100.0 / (exp["vol"] * G ** 3) * 1.6605387823355087) > 1e-4 * dens:
         probs.append("density differs from mass / volume")
-    return probs or None
+    return (probs, overflow) if (probs or overflow) else None
 
 
 def run(ctx):
     (st, tab), = pool.run_tasks(lambda _: table(), [0], workers=1, batch=1)
     if st != "ok":
         ctx.machinery_failure("model topology table: %s" % str(tab)[:300])
-    cases = gen_cases(ctx.seed + 3, 240 if ctx.thorough else 48, tab)
+    (st2, tabu), = pool.run_tasks(lambda _: table("uniform"), [0], workers=1, batch=1)
+    if st2 != "ok":
+        ctx.machinery_failure("uniform model topology table: %s" % str(tabu)[:300])
+    tabs = {"model": tab, "uniform": tabu}
+    n_main = 240 if ctx.thorough else 48
+    cases = gen_cases(ctx.seed + 3, n_main, tab) + gen_cases(ctx.seed + 4, n_main // 3, tabu, "uniform", first_id=n_main)
     if ctx.replay:
         cases = [json.load(open(ctx.replay))["first"]["detail"]["case"]]
     files = []
-    parts = 8
-    for p in range(parts):
-        chunk = cases[p::parts]
-        if chunk:
-            fn = os.path.join(ctx.scratch, "desc-%d.json" % p)
-            json.dump({"top": tab, "recs": chunk}, open(fn, "w"))
-            files.append(fn)
+    parts = 6
+    k = 0
+    for which in ("model", "uniform"):
+        sub = [c for c in cases if c.get("which", "model") == which]
+        for p in range(parts if which == "model" else 2):
+            chunk = sub[p::(parts if which == "model" else 2)]
+            if chunk:
+                fn = os.path.join(ctx.scratch, "desc-%d.json" % k); k += 1
+                json.dump({"top": tabs[which], "recs": chunk}, open(fn, "w"))
+                files.append(fn)
 
     def _val(i_fn):
         i, fn = i_fn
@@ -261,6 +296,12 @@ def run(ctx):
     for tk, (st, val) in zip(tasks, pool.run_tasks(_check, tasks, workers=16, timeout=300, batch=4)):
         if st == "ok" and val is None:
             continue
+        if st == "ok":
+            val, ovf = val
+            if ovf:
+                ctx.discrepancy("contacts:soft_min_float32_overflow", "case %d: %s" % (tk[0]["id"], ovf[0]), dict(case=tk[0]), cls="soft_min overflow")
+            if not val:
+                continue
         nfail += 1
         msg = "; ".join(val) if st == "ok" else "%s: %s" % (st, str(val)[:200])
         ctx.discrepancy(None, "case %d (periodic=%s, cell %s): %s" % (tk[0]["id"], tk[0]["periodic"], tk[0]["cell"], msg[:500]), dict(case=tk[0]),
